@@ -181,8 +181,9 @@ func parseClientHello(buf []byte) (*clientHello, error) {
 	//	return nil, ErrIllegalParameter
 	//}
 
+	// The extensions are optional before TLS 1.3.
 	var extensions cryptobyte.String
-	if !s.ReadUint16LengthPrefixed(&extensions) {
+	if !s.Empty() && !s.ReadUint16LengthPrefixed(&extensions) {
 		return nil, ErrDecodeError
 	}
 
